@@ -208,20 +208,46 @@ fn check_text(s: &str, all_chunkings: bool, rng: &mut Rng, out: &mut CaseOut) {
     let has_nl = s.contains('\n');
     for &(c1, c2) in &chunkings {
         let feeds = [&s[..c1], &s[c1..c2], &s[c2..]];
+        // lookups interleaved with the feeds: after each piece the cache is asked about the end of what it
+        // has seen so far (an offset on the then-last line) and about the middle; the answers must be those
+        // for the prefix as a text of its own, and the cache must go on to answer for the whole text below
+        let mut inter: Vec<(usize, usize, Option<usize>, Option<usize>, Option<(usize, usize)>)> = vec![];
         let cache = match guarded(|| {
             let mut c = NewlineCache::new();
+            let mut fed = 0;
+            let mut inter = vec![];
             for f in feeds.iter() {
                 c.feed(f);
+                fed += f.len();
+                let mid = bs.iter().rev().find(|b| **b <= fed / 2).cloned().unwrap_or(0);
+                for off in [fed, mid] {
+                    inter.push((fed, off, c.byte_to_line_num(off), c.byte_to_line_byte(off), c.byte_to_line_num_and_col_num(&s[..fed], off)));
+                }
             }
-            c
+            (c, inter)
         }) {
-            Ok(c) => c,
+            Ok((c, i)) => {
+                inter = i;
+                c
+            }
             Err(p) => {
                 out.violate("panic", &["feed"], format!("NewlineCache::feed panicked: {p}"), json!({"text": s, "feeds": feeds}));
                 return;
             }
         };
         out.count("chunkings", 1);
+        let mut pm: Option<(usize, Model)> = None;
+        for (fed, off, ln, lb, lc) in inter {
+            if pm.as_ref().map(|x| x.0) != Some(fed) {
+                pm = Some((fed, Model::new(&s[..fed])));
+            }
+            let pmm = &pm.as_ref().unwrap().1;
+            out.count("interleaved_lookups", 1);
+            let ok = ln == Some(pmm.line(off)) && lb == Some(pmm.line_start(off)) && matches!(lc, Some((l, c)) if l == pmm.line(off) && pmm.cols(off).contains(&c));
+            if !ok {
+                out.violate("line-mismatch", &["lookup_between_feeds"], format!("after feeding the first {fed} bytes, offset {off} was reported at line {ln:?}, line start {lb:?}, line/col {lc:?}; expected line {}, line start {}, col in {:?}", pmm.line(off), pmm.line_start(off), pmm.cols(off)), json!({"text": s, "feeds": feeds, "offset": off}));
+            }
+        }
         // offsets
         for &off in &bs {
             out.evals += 1;
@@ -488,7 +514,7 @@ impl Check for C19 {
         n_exh_cases(tier) + n_rand_cases(tier)
     }
     fn rule(&self) -> &'static str {
-        "exhaustive: every string of length <= L over {a, é, ♠, LF, CR, space, 7} (L=4 quick, 6 thorough) x every chunking into <= 3 feeds x every char-boundary offset x every char-boundary span, through NewlineCache, NonStreamingLexer::{line_col,span_lines_str} (on a hand-made lexer and on the lexer that a real lexer definition produces for the text - including texts on which lexing stops at an unmatched character or at a named rule without token id), LexParseError::pp (lexing errors at every offset, parse errors at lexemes covering every span) and lrpar::diagnostics::SpannedDiagnosticFormatter::{file_location_msg at every offset, underline_span_with_text against a reference rendering: all spans of the exhaustive texts, sampled spans of the longer ones}; plus random longer texts (5-60 pieces incl. CRLF, 4-byte, double-width, zero-width and combining chars; every third one has 9-20 or ~100 short lines so that spans cross the 9/10 and 99/100 line-number boundaries) with random chunkings. Non-trivial = text contains at least one LF; distinct by text."
+        "exhaustive: every string of length <= L over {a, é, ♠, LF, CR, space, 7} (L=4 quick, 6 thorough) x every chunking into <= 3 feeds (with lookups between the feeds, judged against the prefix as a text of its own) x every char-boundary offset x every char-boundary span, through NewlineCache, NonStreamingLexer::{line_col,span_lines_str} (on a hand-made lexer and on the lexer that a real lexer definition produces for the text - including texts on which lexing stops at an unmatched character or at a named rule without token id), LexParseError::pp (lexing errors at every offset, parse errors at lexemes covering every span) and lrpar::diagnostics::SpannedDiagnosticFormatter::{file_location_msg at every offset, underline_span_with_text against a reference rendering: all spans of the exhaustive texts, sampled spans of the longer ones}; plus random longer texts (5-60 pieces incl. CRLF, 4-byte, double-width, zero-width and combining chars; every third one has 9-20 or ~100 short lines so that spans cross the 9/10 and 99/100 line-number boundaries) with random chunkings. Non-trivial = text contains at least one LF; distinct by text."
     }
     fn assumptions(&self) -> Vec<&'static str> {
         vec![
